@@ -7,7 +7,7 @@
    property) and once with the open as-built deviation flags (known findings). *)
 EXTENDS SrcSyntax, Json
 
-CONSTANTS Family,     \* "ctl" | "ctlx" | "eff" | "scope" | "yf" | "panic"
+CONSTANTS Family,     \* "ctl" | "ctlx" | "range" | "rangex" | "eff" | "scope" | "yf" | "panic"
           MaxSize, TapeLen, MaxCalls, Budget,
           OpenFlags,  \* set of as-built flags that are open known findings
           Lazy,       \* compose the last size level lazily inside Init
@@ -26,20 +26,35 @@ AllJumps == {"return", "break", "continue"}
 
 ACtl == [simple |-> {Eff, IncA, Y(Lit0), Y(VarA)},
          inits |-> {None, Y(Lit0)}, posts |-> {None, PAssign, Y(Lit0)}, conds |-> {None, T0},
-         ifinits |-> {None}, kinds |-> {"if", "ifelse", "switch", "block", "for"}, jumps |-> AllJumps]
+         ifinits |-> {None}, kinds |-> {"if", "ifelse", "switch", "block", "for"}, jumps |-> AllJumps, ranges |-> {}]
 AScope == [simple |-> {Eff, DefA, IncA, [k |-> "callf"], Y(VarA)},
            inits |-> {None, DefA}, posts |-> {None, IncA}, conds |-> {T0},
-           ifinits |-> {None, DefA}, kinds |-> {"if", "ifelse", "switch", "block", "for"}, jumps |-> {"continue"}]
+           ifinits |-> {None, DefA}, kinds |-> {"if", "ifelse", "switch", "block", "for"}, jumps |-> {"continue"}, ranges |-> {}]
 AYf == [simple |-> {Eff, IncA, Y(VarA)} \cup YFs,
         inits |-> {None}, posts |-> {None} \cup YFs, conds |-> {T0},
-        ifinits |-> {None}, kinds |-> {"if", "for"}, jumps |-> {"break", "continue"}]
+        ifinits |-> {None}, kinds |-> {"if", "for"}, jumps |-> {"break", "continue"}, ranges |-> {}]
 APanic == [ACtl EXCEPT !.simple = @ \cup {[k |-> "panic"]}]
 \* the control-flow family with every switch form: default first / no default, type switch, tag-less switch
 \* effects everywhere, effectful yield expressions (C02: the interleaving is the observation)
 ObsA == [k |-> "obs", id |-> 0, n |-> "a"]
 AEff == [ACtl EXCEPT !.simple = {Eff, IncA, Y(ObsA), Y(VarA)}, !.posts = {None, PAssign, Y(ObsA)}, !.inits = {None, Y(ObsA)}]
 ACtlX == [ACtl EXCEPT !.kinds = @ \cup {"switchd", "tswitch", "notag"}]
-A == CASE Family = "ctl" -> ACtl [] Family = "scope" -> AScope [] Family = "yf" -> AYf [] Family = "panic" -> APanic [] Family = "ctlx" -> ACtlX [] Family = "eff" -> AEff
+\* range loops inside generators (C04): every collection kind x variable forms x body shapes
+RangeHdr(kind, xf, kf, vf) == [k |-> "range", id |-> 0, kind |-> kind, xf |-> xf, kf |-> kf, vf |-> vf, wrap |-> "none", body |-> <<>>]
+KVForms == {<<"def", "def">>, <<"def", "none">>, <<"blank", "def">>, <<"none", "none">>, <<"asg", "asg">>, <<"asg", "none">>, <<"blank", "asg">>}
+KForms == {<<"def", "none">>, <<"none", "none">>, <<"asg", "none">>}
+Ranges == {RangeHdr(kd, "var", f[1], f[2]) : kd \in {"slice", "array", "string"}, f \in KVForms}
+     \cup {RangeHdr(kd, "var", f[1], f[2]) : kd \in {"int", "chan"}, f \in KForms}
+     \cup {RangeHdr(kd, "call", "def", "def") : kd \in {"slice", "array", "string"}}
+     \cup {RangeHdr(kd, "call", "def", "none") : kd \in {"int", "chan"}}
+Mut(op, j) == [k |-> "mut", op |-> op, j |-> j]
+VarK == [k |-> "var", n |-> "k"]
+VarV == [k |-> "var", n |-> "v"]
+ARange == [simple |-> {Y(VarK), Y(VarV), Mut("sset", 2), Mut("sapp", 0), Mut("strunc", 0), Mut("aset", 2)},
+           inits |-> {None}, posts |-> {None}, conds |-> {T0}, ifinits |-> {None},
+           kinds |-> {"range", "if"}, jumps |-> {"break", "continue"}, ranges |-> Ranges]
+ARangeX == [ARange EXCEPT !.simple = @ \cup {Mut("nset", 0), Mut("strset", 0), Mut("sset", 0), Mut("aset", 0)}]
+A == CASE Family = "range" -> ARange [] Family = "rangex" -> ARangeX [] Family = "ctl" -> ACtl [] Family = "scope" -> AScope [] Family = "yf" -> AYf [] Family = "panic" -> APanic [] Family = "ctlx" -> ACtlX [] Family = "eff" -> AEff
 
 \* Go scoping: `a := ...` at most once per block and never in the function's top block
 \* (a is a parameter there: "no new variables on left side of :=")
@@ -57,7 +72,24 @@ HasKS(s, kk) == s.k = kk \/ CASE s.k = "if" -> HasK(s.a, kk) \/ HasK(s.b, kk)
                               [] OTHER -> FALSE
 HasK(b, kk) == \E j \in 1..Len(b) : HasKS(b[j], kk)
 \* a function without a Yield is not a generator for the tool (it would run eagerly: C13's business)
-Member(p) == HasY(p) /\ (Family = "scope" => ScopeOK(p, 0)) /\ (Family = "panic" => HasK(p, "panic"))
+IsRangeFam == Family \in {"range", "rangex"}
+Member(p) == /\ HasY(p) /\ (Family = "scope" => ScopeOK(p, 0)) /\ (Family = "panic" => HasK(p, "panic"))
+             /\ (IsRangeFam => HasK(p, "range"))
+\* range family: every program ends with an observation of the function-level kk, vv and a final yield
+\* (so range loops whose bodies do not yield are still inside a generator); a range loop without a
+\* yield may also sit in a closure nested in the generator:  func() { for ... }()
+RECURSIVE CloWrapB(_)
+CloWrapS(s) == IF s.k = "range" THEN (IF HasY(s.body) THEN [s EXCEPT !.body = CloWrapB(@)] ELSE [s EXCEPT !.wrap = "closure"])
+               ELSE IF s.k = "if" THEN [s EXCEPT !.a = CloWrapB(@), !.b = CloWrapB(@)] ELSE s
+CloWrapB(b) == [j \in 1..Len(b) |-> CloWrapS(b[j])]
+\* every range body starts with an observation of the loop's key and value: r.E(id, K, V)
+RECURSIVE AddObsB(_)
+AddObsS(s) == IF s.k = "range" THEN [s EXCEPT !.body = <<[k |-> "effkv", id |-> 0]>> \o AddObsB(@)]
+              ELSE IF s.k = "if" THEN [s EXCEPT !.a = AddObsB(@), !.b = AddObsB(@)] ELSE s
+AddObsB(b) == [j \in 1..Len(b) |-> AddObsS(b[j])]
+Finish(raw) == IF IsRangeFam THEN LET tail == <<[k |-> "effkk", id |-> 0], Y(Lit0)>> IN
+                                  {AddObsB(raw) \o tail, AddObsB(CloWrapB(raw)) \o tail}
+               ELSE {raw}
 
 \* fixed delegates of the delegation family: 2 = two yields, 3 = maybe empty,
 \* 4 = recursive walk whose depth is bounded by the tape
@@ -75,7 +107,7 @@ VARIABLES prog, tape0, w, wb, calls, obs, obsB
 vars == <<prog, tape0, w, wb, calls, obs, obsB>>
 
 Start(p, tape, flags) == Spawn(MW0(<<p, D2, D3, D4>>, tape, Budget, flags), 1, 0, 2).w
-Init == /\ \/ \E raw \in Small : prog = Label(raw)
+Init == /\ \/ \E raw \in Small : \E fin \in Finish(raw) : prog = Label(fin)
            \/ (Lazy /\ \E raw \in {0} : FALSE)   \* (keeps TLC's Init shape uniform)
            \/ (Lazy /\ LET B(m, ctx) == Tab[m + 1].B[ctx] IN
                        \/ \E m \in 1..(MaxSize - 1) : \E s \in Tab[m + 1].S["top"], r \in B(MaxSize - m, "top") : prog = Label(<<s>> \o r)
